@@ -91,6 +91,64 @@ pub fn c17(v: &View) -> Vec<Violation> {
     out
 }
 
+/// The part of C07 that is sound under true concurrency. (1) An actor that nobody stopped or
+/// killed, that did not crash and to which the harness still holds a strong handle has not ended
+/// when the clients are done, and does not refuse the post-mortem probes. (2) After the epilogue
+/// (stop() on every actor, every handle dropped, 10 s of waiting) a healthy actor that is not inside
+/// a hook and has been idle for 5 s has ended gracefully.
+pub fn c07_rt(v: &View) -> Vec<Violation> {
+    let mut out = vec![];
+    let Some(h) = v.phase_seq[0] else { return out };
+    let end_t = v.evs.last().map(|e| e.t).unwrap_or(0);
+    for a in 0..v.actors.len() {
+        let av = &v.actors[a];
+        if !av.spawned || !av.started_ok() {
+            continue;
+        }
+        let crashed = av.panic_seq.is_some() || av.run_err.is_some();
+        if crashed || v.any_kill(a) {
+            continue;
+        }
+        let stop_called = v.ops.iter().any(|o| o.a == a && o.kind == OpKind::Stop && !o.skipped() && o.b_seq < h);
+        let probes: Vec<&OpRec> = v.ops.iter().filter(|o| o.a == a && o.phase == 1 && o.src == Src::Driver).collect();
+        if !stop_called && !probes.is_empty() && av.strong_at(h) >= 1 {
+            if av.joined_seq().map(|j| j < h).unwrap_or(false) || av.stop_begin.map(|s| s.0 < h).unwrap_or(false) {
+                out.push(viol("C07", "spontaneous-end", format!("actor {a} ended (joined={:?}, on_stop={:?}) although a strong handle is held and no stop/kill/error/panic occurred", av.joined_seq(), av.stop_begin)));
+            }
+            for o in &probes {
+                if let Some((how, _, _)) = o.send() {
+                    if matches!(o.res, Some(Res::ErrSend) | Some(Res::ErrRecv)) {
+                        out.push(viol("C07", "live-actor-not-serving", format!("actor {a} is referenced and was never stopped, but the probe {how:?} ended as {:?}", o.res)));
+                    }
+                }
+            }
+        }
+        // (2)
+        if v.phase_seq[2].is_some() && av.joined.is_none() {
+            let in_hook = {
+                let mut busy = false;
+                for (_, _, hk) in &av.hooks {
+                    match hk {
+                        HookEv::StartBegin | HookEv::HBegin(_) | HookEv::StopBegin(_) => busy = true,
+                        HookEv::StartEnd(..) | HookEv::HEnd(..) | HookEv::StopEnd(..) => busy = false,
+                        _ => {}
+                    }
+                }
+                busy
+            };
+            let last_t = av.hooks.last().map(|x| x.1).unwrap_or(0);
+            if !in_hook && end_t.saturating_sub(last_t) > 5_000_000 {
+                out.push(viol("C07", "did-not-end", format!("actor {a}: every handle was dropped{} and it has been idle for {} us, yet its JoinHandle has not resolved", if v.ops.iter().any(|o| o.a == a && o.kind == OpKind::Stop && matches!(o.res, Some(Res::Ok))) { " and stop() was accepted" } else { "" }, end_t - last_t)));
+            }
+        } else if let Some((_, _, killed)) = av.stop_begin {
+            if killed {
+                out.push(viol("C07", "not-graceful", format!("actor {a} was never killed but on_stop received killed=true")));
+            }
+        }
+    }
+    out
+}
+
 pub fn c17_labels(v: &View, l: &mut Vec<&'static str>) {
     let blocking: Vec<&OpRec> = v.sends().filter(|o| o.send().unwrap().0.is_blocking() && matches!(o.src, Src::Client(_))).collect();
     for x in &blocking {
